@@ -24,6 +24,16 @@ type Input struct {
 	Stale   []StaleSpec `json:"stale,omitempty"` // files <base>.<x>.go present before the first run
 	PrevSum string      `json:"prev_sum,omitempty"`
 	N       int         `json:"n,omitempty"` // fresh processes (0 = tier default)
+	// Work (workspace inputs): the modules of a go.work workspace; the tree's root holds go.work, module k lies in
+	// Work[k].Dir, package i belongs to module Pkgs[i].M and lies in <module dir>/<Pkgs[i].Dir>; Entry holds
+	// directories relative to the workspace root ("m1/a").  Mod is not used.  See workspace.go.
+	Work []WorkMod `json:"work,omitempty"`
+}
+
+type WorkMod struct {
+	Dir string `json:"dir"`
+	Mod string `json:"mod"`
+	Go  string `json:"go,omitempty"`
 }
 
 type StaleSpec struct {
@@ -38,6 +48,7 @@ type PkgSpec struct {
 	Doc     [][]string `json:"doc,omitempty"`     // per file: lines of the package doc comment
 	Imports []int      `json:"imports,omitempty"` // indices of earlier packages imported (blank use)
 	Objs    []ObjSpec  `json:"objs"`
+	M       int        `json:"m,omitempty"` // workspace inputs: index of the package's module in Input.Work
 }
 
 type MethodSpec struct {
@@ -95,16 +106,44 @@ func MkUID(file, line, col int) uint64 {
 }
 
 func (in *Input) PkgPath(i int) string {
-	if in.Pkgs[i].Dir == "" {
-		return in.Mod
+	mod := in.Mod
+	if m := in.modOf(i); m != nil {
+		mod = m.Mod
 	}
-	return in.Mod + "/" + in.Pkgs[i].Dir
+	if in.Pkgs[i].Dir == "" {
+		return mod
+	}
+	return mod + "/" + in.Pkgs[i].Dir
+}
+
+// modOf: the workspace module of package i (nil for a single-module input)
+func (in *Input) modOf(i int) *WorkMod {
+	if len(in.Work) == 0 {
+		return nil
+	}
+	k := in.Pkgs[i].M
+	if k < 0 || k >= len(in.Work) {
+		k = 0
+	}
+	return &in.Work[k]
+}
+
+// PkgDir: the directory of package i relative to the root of the tree ("" = the root itself)
+func (in *Input) PkgDir(i int) string {
+	if m := in.modOf(i); m != nil {
+		return path.Join(m.Dir, in.Pkgs[i].Dir)
+	}
+	return in.Pkgs[i].Dir
 }
 
 // Render produces the module's files (relative path -> content) and the list of type-name objects.
 func (in *Input) Render() (map[string]string, []TypeObj) {
 	files := map[string]string{}
-	files["go.mod"] = fmt.Sprintf("module %s\n\ngo %s\n", in.Mod, in.GoVer)
+	if len(in.Work) == 0 {
+		files["go.mod"] = fmt.Sprintf("module %s\n\ngo %s\n", in.Mod, in.GoVer)
+	} else {
+		in.renderWorkspace(files)
+	}
 	var objs []TypeObj
 	for pi, p := range in.Pkgs {
 		n := p.NFiles
@@ -231,7 +270,7 @@ func (in *Input) Render() (map[string]string, []TypeObj) {
 			}
 		}
 		for fi := 0; fi < n; fi++ {
-			files[path.Join(p.Dir, fmt.Sprintf("f%d.go", fi))] = strings.Join(bufs[fi], "\n") + "\n"
+			files[path.Join(in.PkgDir(pi), fmt.Sprintf("f%d.go", fi))] = strings.Join(bufs[fi], "\n") + "\n"
 		}
 	}
 	for _, s := range in.Stale {
@@ -239,9 +278,9 @@ func (in *Input) Render() (map[string]string, []TypeObj) {
 			continue
 		}
 		p := in.Pkgs[s.Pkg]
-		files[path.Join(p.Dir, BaseName+"."+s.Name+".go")] = "package " + p.Name + "\n\nfunc stale_" + sanitize(s.Name) + "() {}\n"
+		files[path.Join(in.PkgDir(s.Pkg), BaseName+"."+s.Name+".go")] = "package " + p.Name + "\n\nfunc stale_" + sanitize(s.Name) + "() {}\n"
 	}
-	if in.PrevSum != "" {
+	if in.PrevSum != "" && len(in.Work) == 0 {
 		files["gengo.sum"] = in.PrevSum
 	}
 	return files, objs
